@@ -27,7 +27,7 @@ RULE = (
     "history: Hypothesis state machine over several adapters (key pool so that objects share keys), the cmac() helper, the '.iv = zeros' assignment "
     "AesEncryptorMixin performs, and raw mode objects / feeders of all modes (incl. default-counter CTR) interleaved; every adapter result must equal the pure "
     "function of (key, constructor IV, data), every mode object result must equal the one-shot oracle over exactly the bytes fed to that object. "
-    "mixed: ONE ECB/CBC object used for encryption and decryption in a generated order (CBC: either chaining-register reading of the recurrence is accepted); block results kept by the caller across later calls on the same AES object must stay what they were. "
+    "interleave: two PRIVATE cipher objects (block cipher, CBC mode, adapter) with A stopped before sampled source lines of pyaes / the adapter while a complete operation of B runs (vlib/interleave); both must give the standard results. mixed: ONE ECB/CBC object used for encryption and decryption in a generated order (CBC: either chaining-register reading of the recurrence is accepted); block results kept by the caller across later calls on the same AES object must stay what they were. "
     "Non-trivial = data not block aligned, or >= 2 chunks, or >= 2 calls on one object (tables/block: every entry / every (key, block) pair); distinct by case hash."
 )
 ASSUMPTIONS = [
@@ -1142,12 +1142,77 @@ def strat_mixed(tier):
     ))
 
 
+# ================================================================================================ part: interleave (two PRIVATE objects)
+def check_interleave(case, rec):
+    """two SEPARATE cipher objects (own keys, IVs, data) work 'at the same time': A (block encrypt + decrypt, a CBC message, the adapter) is
+    stopped before every source line of pyaes / the adapter while a complete operation of B runs there (vlib/interleave - under the GIL exactly a
+    switch to a second thread between two bytecodes of A); both must give their sequential (= standard) results.  Only hidden shared state
+    (class attributes, module globals, scratch buffers) can make them differ."""
+    import sys as _sys
+
+    import register_crypto_plugin as _plug
+    from vlib import interleave
+
+    rec.nt()
+    codes = interleave.codes_of([_sys.modules[aes.__name__], _sys.modules[blockfeeder.__name__], _plug])
+    kind = case["kind"]
+    rec.cls("interleave.kind=" + kind)
+
+    def maker(key, iv, data):
+        def make():
+            if kind == "block":
+                a = aes.AES(key)
+                return lambda: (bytes(a.encrypt(data[:16])), bytes(a.decrypt(data[:16])))
+            if kind == "cbc":
+                m = aes.AESModeOfOperationCBC(key, iv=iv)
+                return lambda: b"".join(bytes(m.encrypt(data[k: k + 16])) for k in range(0, len(data), 16))
+            obj = make_adapter(key[:16], iv, "given")
+            return lambda: (bytes(obj.encrypt(data)), bytes(obj.mac(data)))
+
+        return make
+
+    def expected(key, iv, data):
+        if kind == "block":
+            return ossl.aes("ecb", key, None, data[:16], True), ossl.aes("ecb", key, None, data[:16], False)
+        if kind == "cbc":
+            return ossl.aes("cbc", key, iv, data, True)
+        pz, want = adapter_oracle(key[:16], iv, data)
+        return want, want[-16:]
+
+    a = (case["ka"], case["iva"], case["da"])
+    b = (case["kb"], case["ivb"], case["db"])
+    wa, wb = expected(*a), expected(*b)
+    ra, _, n, _ = interleave.run(maker(*a), maker(*b), codes, -1)
+    if ra != wa:
+        raise Violation("sequential %s operation differs from the standard result" % kind)
+    if n < 5:
+        raise HarnessError("only %d line events in pyaes" % n)
+    rec.cls("interleave.points", n)
+    step = max(1, n // (120 if case.get("dense") else 40))
+    for i in list(range(0, n, step)) + [n - 1]:
+        try:
+            ra, rb, _, ran = interleave.run(maker(*a), maker(*b), codes, i)
+        except Exception as e:
+            raise Violation("%s object A preempted at line event %d of %d by a complete operation on ANOTHER object: %s: %s" % (kind, i, n, type(e).__name__, e))
+        if ra != wa or (ran and rb != wb):
+            raise Violation("two separate %s objects interleaved (A stopped at line event %d of %d): %s result differs from the standard result" % (
+                kind, i, n, "A's" if ra != wa else "B's"))
+
+
+def strat_interleave(tier):
+    b16 = st.binary(min_size=16, max_size=16)
+    return st.fixed_dictionaries(dict(kind=st.sampled_from(["block", "cbc", "adapter"]), ka=any_key(), kb=any_key(), iva=b16, ivb=b16,
+                                      da=st.sampled_from([16, 32, 48]).flatmap(lambda k: st.binary(min_size=k, max_size=k)),
+                                      db=st.sampled_from([16, 32]).flatmap(lambda k: st.binary(min_size=k, max_size=k)), dense=st.booleans()))
+
+
 # ================================================================================================ parts
 def parts(tier):
     return [
         Part("tables", check=check_table_entry, bulk=bulk_tables, quick=(3, 0), thorough=(3, 0), exhaustive=True),
         Part("block_vectors", check=check_block, enum=enum_block, quick=(8, 0), thorough=(8, 0), exhaustive=True),
         Part("block", check=check_block, strategy=strat_block, quick=(8, 400), thorough=(16, 6000)),
+        Part("interleave", check=check_interleave, strategy=strat_interleave, quick=(8, 4), thorough=(16, 20)),
         Part("mixed", check=check_mixed, strategy=strat_mixed, quick=(4, 150), thorough=(16, 1500)),
         Part("vectors", check=check_mode, enum=enum_vectors, quick=(8, 0), thorough=(8, 0), exhaustive=True),
         Part("modes", check=check_mode, strategy=strat_mode, quick=(16, 500), thorough=(16, 5000)),
